@@ -187,8 +187,13 @@ func scenarioC03(c *hlib.RunCtx) *hlib.Violation {
 				o = op{kind: 0, idx: t.Draw(len(p.counters)), n: int64(1 + t.Draw(5))}
 				if w.satur && t.Bool(1, 3) {
 					o.n = int64(1)<<33 - int64(t.Draw(4))
-					if t.Bool(1, 4) {
+					switch t.Draw(4) {
+					case 0:
 						o.n = int64(1)<<62 + int64(t.Draw(1<<20))
+					case 1:
+						// the largest amount the API takes: the second such add reaches the
+						// persisted limit, the third would wrap
+						o.n = 1<<63 - 1 - int64(t.Draw(3))
 					}
 				}
 			}
